@@ -5,30 +5,30 @@ CONSTANTS
   Clients = {}
   Verifs = {1}
   OKeys = {"o1"}
-  LKeys = {"l1"}
+  LKeys = {"l1", "l2"}
   Names = {"a"}
-  Ops = {"OPEN", "OPEN_CONFIRM", "CLOSE", "LOCK", "LOCKU"}
+  Ops = {"OPEN", "OPEN_CONFIRM", "CLOSE", "LOCK", "LOCKU", "LOCKT"}
   Shares = {3}
   Hows = {"UNCHECKED"}
-  SeqDev <- DevSeq
-  SidDev <- DevSid
-  WrongFh = TRUE
-  RangeSet <- RangesSeq
-  LockTypes = {"W"}
+  SeqDev <- DevNone
+  SidDev <- DevNone
+  WrongFh = FALSE
+  RangeSet <- RangesLast
+  LockTypes = {"R", "W"}
   TickSet = {}
   PreClients = {1}
-  GateOpen = "all"
-  FirstSeqs <- FirstWrap
-  LaxSet = {"cache", "reject"}
-  RejSet = {""}
+  GateOpen = "none"
+  FirstSeqs <- FirstOne
+  LaxSet = {"cache"}
+  RejSet = {"", "BAD_RANGE"}
   AnonOps = {}
   MaxLSeq = 2
   MaxConf = 1
   MaxSid = 3
   MaxFile = 1
-  MaxSeq = 3
+  MaxSeq = 4
   MaxClock = 0
-  MaxIO = 1
+  MaxIO = 0
 CONSTRAINT Bounded
 INVARIANTS
   Inv_C18_Balance
